@@ -140,6 +140,48 @@ class Obj:
             Obj._repr_busy.discard(id(self))
 
 
+class NamedTupleModel:
+    """what collections.namedtuple(name, fields) returns: callable, with `_fields`, `_make` and defaults set through
+    `X.__new__.__defaults__ = (...)`.  Instances are instances of a real namedtuple class made by the checker (tuples with field
+    access, `_replace`, `_asdict`)."""
+    _nqsa_model = True
+
+    class _New:
+        _nqsa_model = True
+
+        def __init__(self, owner):
+            self._owner = owner
+
+        @property
+        def __defaults__(self):
+            return self._owner.cls.__new__.__defaults__
+
+        @__defaults__.setter
+        def __defaults__(self, v):
+            self._owner.cls.__new__.__defaults__ = tuple(v) if v is not None else None
+
+    def __init__(self, name, fields, defaults=None, **kw):
+        import collections
+        if isinstance(fields, str):
+            fields = fields.replace(",", " ").split()
+        self.cls = collections.namedtuple(name, list(fields), defaults=defaults)
+        self.__name__ = name
+        self.new_proxy = NamedTupleModel._New(self)
+
+    @property
+    def _fields(self):
+        return self.cls._fields
+
+    def _make(self, it):
+        return self.cls._make(it)
+
+    def __call__(self, *a_, **k_):
+        try:
+            return self.cls(*a_, **k_)
+        except TypeError as ex_:
+            raise EvalRaise("TypeError", str(ex_))
+
+
 class DynStruct:
     """a ctypes structure class created while a function runs (`class T(Base): pass; T._fields_ = f` or `type(n, (Base,), {"_fields_": f})`):
     only its size is ever asked for"""
@@ -736,7 +778,18 @@ class Interp:
                 raise AnalysisError(f"circuit evaluation: attribute store on {o!r}")
         elif isinstance(t, ast.Subscript):
             o = self.eval(t.value, env, m)
-            o[self.eval(t.slice, env, m)] = v
+            k_ = self.eval(t.slice, env, m)
+            if isinstance(o, Obj) and o.cls is not None and self.repo.lookup(o.cls, "__setitem__") is not None:
+                self.method(o, "__setitem__", [k_, v], {}, t)  # a container class of the repository
+                return
+            try:
+                o[self._hashable(k_) if isinstance(o, dict) else k_] = v
+            except IndexError:
+                raise EvalRaise("IndexError", src(t))
+            except TypeError as ex_:
+                if isinstance(o, (list, dict, bytearray)):
+                    raise EvalRaise("TypeError", str(ex_))
+                raise AnalysisError(f"circuit evaluation: item store on {type(o).__name__} ({src(t)[:50]})")
         else:
             raise AnalysisError(f"circuit evaluation: assignment target {src(t)}")
 
@@ -769,7 +822,13 @@ class Interp:
                     vals.append(self.eval(x, env, m))
             return vals if isinstance(e, ast.List) else tuple(vals)
         if isinstance(e, ast.Dict):
-            return {self._hashable(self.eval(k, env, m)): self.eval(v, env, m) for k, v in zip(e.keys, e.values)}
+            out_ = {}
+            for k, v in zip(e.keys, e.values):
+                if k is None:
+                    out_.update(self.eval(v, env, m))  # {**other}
+                else:
+                    out_[self._hashable(self.eval(k, env, m))] = self.eval(v, env, m)
+            return out_
         if isinstance(e, ast.BinOp):
             return self.binop(e.op, self.eval(e.left, env, m), self.eval(e.right, env, m), e)
         if isinstance(e, ast.UnaryOp):
@@ -806,13 +865,18 @@ class Interp:
             return self.eval(e.body, env, m) if self.truth(self.eval(e.test, env, m)) else self.eval(e.orelse, env, m)
         if isinstance(e, ast.Attribute):
             return self.attribute(e, env, m)
+        if isinstance(e, ast.Slice):
+            return slice(self.eval(e.lower, env, m) if e.lower else None, self.eval(e.upper, env, m) if e.upper else None, self.eval(e.step, env, m) if e.step else None)
         if isinstance(e, ast.Subscript):
             o = self.eval(e.value, env, m)
-            if isinstance(e.slice, ast.Slice):
-                lo = self.eval(e.slice.lower, env, m) if e.slice.lower else None
-                hi = self.eval(e.slice.upper, env, m) if e.slice.upper else None
-                return o[lo:hi]
             k = self.eval(e.slice, env, m)
+            if isinstance(o, Obj) and o.cls is not None and self.repo.lookup(o.cls, "__getitem__") is not None:
+                return self.method(o, "__getitem__", [k], {}, e)  # a container class of the repository
+            if isinstance(k, slice):
+                try:
+                    return o[k]
+                except TypeError as ex_:
+                    raise AnalysisError(f"circuit evaluation: slice of {type(o).__name__} ({src(e)[:50]}): {ex_}")
             try:
                 return o[self._hashable(k)] if isinstance(o, dict) else o[k]
             except KeyError:
@@ -1031,6 +1095,11 @@ class Interp:
             if key not in store:
                 try:
                     store[key] = self.eval(r[2], {}, r[1])
+                    if isinstance(store[key], NamedTupleModel):
+                        # NAME.__new__.__defaults__ = (...) at module level belongs to the definition of the tuple class
+                        for st_ in r[1].tree.body:
+                            if isinstance(st_, ast.Assign) and len(st_.targets) == 1 and dotted(st_.targets[0]) == f"{name}.__new__.__defaults__":
+                                store[key].new_proxy.__defaults__ = self.eval(st_.value, {}, r[1])
                 except AnalysisError:
                     # (a constant computed from library types, e.g. a width from ctypes.sizeof: the constant evaluator models those)
                     try:
@@ -1068,8 +1137,19 @@ class Interp:
         return self.getattr(o, e.attr, e)
 
     def getattr(self, o, attr, node=None):
+        if isinstance(o, NamedTupleModel) and attr == "__new__":
+            return o.new_proxy
         if getattr(o, "_nqsa_model", False):
             return getattr(o, attr)  # a model object supplied by the rule (plain Python, its methods are called as they are)
+        if isinstance(o, tuple) and hasattr(o, "_fields") and attr in ("_replace", "_asdict", "_fields") + tuple(o._fields):
+            if attr == "_replace":
+                def _replace(**k_):
+                    try:
+                        return o._replace(**k_)
+                    except ValueError as ex_:
+                        raise EvalRaise("ValueError", str(ex_))
+                return _replace
+            return getattr(o, attr)  # an instance of a namedtuple class of the repository
         if isinstance(o, Obj):
             if attr == "__class__" and o.cls is not None:
                 return ("class", o.cls)
@@ -1366,6 +1446,8 @@ class Interp:
         return self.apply(f, args, kwargs, e, m)
 
     def isinstance(self, o, t) -> bool:
+        if isinstance(t, NamedTupleModel):
+            return isinstance(o, t.cls)
         if isinstance(t, tuple) and t[0] == "class":
             c = t[1]
             if isinstance(o, EnumMember):
@@ -1401,6 +1483,13 @@ class Interp:
                 return isinstance(o, dict)
             if n == "GeneratorType":
                 return False  # the modelled collaborators return plain values
+            if t[1] in ("enum.Enum", "enum.IntEnum"):
+                return isinstance(o, EnumMember)
+            if n in ("bytearray", "slice", "complex"):
+                return isinstance(o, {"bytearray": bytearray, "slice": slice, "complex": complex}[n])
+            if t[1] in ("numbers.Number", "numbers.Integral", "numbers.Real"):
+                import numbers
+                return isinstance(o, getattr(numbers, n))
         raise AnalysisError(f"circuit evaluation: isinstance against {t!r}")
 
     def apply(self, f, args, kwargs, node, m):
@@ -1451,6 +1540,8 @@ class Interp:
                     return self.sc.externals[name](*args, **kwargs)  # a library call the rule models for this scenario (clock, sleep, ...)
                 if name == "collections.defaultdict":
                     return self._defaultdict(*args, **kwargs)
+                if name == "collections.namedtuple":
+                    return NamedTupleModel(*args, **kwargs)
                 if name.startswith("ctypes.") and name.split(".")[1] in CTYPES_SCALARS and getattr(self.sc, "ctypes_model", False):
                     from . import cmodel
                     t_ = CTYPES_SCALARS[name.split(".")[1]]
@@ -1566,11 +1657,15 @@ class Interp:
             r = RegSym(f"R{len(self.sc.fresh)}")
             return r
         if self.ev.is_enum(c):
-            v = args[0]
+            v = args[0] if args else kwargs.get("value")
+            if isinstance(v, EnumMember):
+                if v.enum == c.qualname:
+                    return v  # Enum(member) is the member
+                raise EvalRaise("ValueError", f"{v!r} is not a valid {c.name}")
             for k, mv in self.ev.enum_members(c).items():
-                if mv == v:
+                if mv == v and isinstance(mv, bool) == isinstance(v, bool):
                     return EnumMember(c.qualname, k, mv)
-            raise EvalRaise("ValueError", "enum")
+            raise EvalRaise("ValueError", f"{v!r} is not a valid {c.name}")
         if getattr(self.sc, "ctypes_model", False) and self.ev.is_struct(c):
             from . import cmodel
             o = cmodel.new_struct(self.ev, c, lambda k_: Obj(k_, {}))
